@@ -89,8 +89,18 @@ def gen_transfers(rng, big=False, ns=None, dll='j1939-21', lats=None, sizefn=siz
             n2 = sizefn(rng, False)
             script.append(dict(t=t2, s=i, op='send', a=[dp, pf, ps, prio, sa, dict(seed=rng.getrandbits(30), len=n2)]))
             horizon = max(horizon, t2 + ((n2 + 6) // 7) * 60000 + 3_000_000)
+    app_timers(rng, script, ns)
     script.sort(key=lambda e: e['t'])
     return dict(stacks=stacks, lat=lat, jit=[rng.choice([1, 1000])], script=script, horizon=horizon + 1000)
+
+
+def app_timers(rng, script, ns):
+    """in a quarter of the scenarios the applications run cyclic timers of their own on the same ECUs (0.3 .. 1 s): serving
+    them must not get in the way of the transport deadlines"""
+    if rng.random() < 0.25:
+        for i in range(ns):
+            if rng.random() < 0.6:
+                script.append(dict(t=rng.choice([100, 500, 900]), s=i, op='add_timer', cid=900 + i, delta=rng.choice([300000, 800000, 1000000]), ret=True))
 
 
 def size22(rng, big):
@@ -133,5 +143,6 @@ def gen_transfers22(rng, big=False, ntr=None, capacity=False):
         nseg = (sz + 59) // 60
         dur = nseg * 12000 + 4_500_000
         horizon = max(horizon, t + dur)
+    app_timers(rng, script, ns)
     script.sort(key=lambda e: e['t'])
     return dict(stacks=stacks, lat=lat, jit=[rng.choice([1, 1000])], script=script, horizon=horizon + 1000)
